@@ -87,6 +87,26 @@ func VerifAPIIsolation() {
 	u0, x0 := first[fat2.PTickerUSD], first[fat2.PTickerXBT]
 	_ = d3.GetPegNetRateAverages(ctx, syncHeight)
 	vrt.Assert("C18.returned-averages-are-not-rewritten-by-later-calls", first[fat2.PTickerUSD] == u0 && first[fat2.PTickerXBT] == x0)
+	// ---- (a') a request whose client has gone away (cancelled context) may fail, but what the
+	// sync side computes afterwards is what it computes without that request
+	d4 := new(node.Pegnetd)
+	d4.Pegnet = p
+	d4.Sync = &pegnet.BlockSync{Synced: 10}
+	s4 := &APIServer{Node: d4}
+	gone, cancel := context.WithCancel(ctx)
+	cancel()
+	func() {
+		defer func() { recover() }() // the JSON-RPC layer swallows handler panics
+		_ = s4.getGlobalRichList(gone, nil)
+	}()
+	afterReq := d4.GetPegNetRateAverages(ctx, 10).(map[fat2.PTicker]uint64)
+	d5 := new(node.Pegnetd)
+	d5.Pegnet = p
+	d5.Sync = &pegnet.BlockSync{Synced: 10}
+	clean := d5.GetPegNetRateAverages(ctx, 10).(map[fat2.PTicker]uint64)
+	vrt.Assert("C18.abandoned-request-does-not-change-what-sync-computes",
+		afterReq[fat2.PTickerUSD] == clean[fat2.PTickerUSD] && afterReq[fat2.PTickerXBT] == clean[fat2.PTickerXBT])
+
 	// ---- (c) whatever the read API was asked, it leaves nothing behind that stops the sync loop:
 	// after any request - found or not found - the next block must still commit (in SQLite's
 	// default journal mode a read transaction or cursor left open keeps a SHARED lock, and COMMIT fails)
